@@ -174,5 +174,6 @@ def run(ck, ctx):
     if ws is not None:
         r = repr([ws.expr_of_rvalue(s["rv"]) for bi, si, s in ws.stmts() if s["k"] == "assign" and any(isinstance(e, dict) and e.get("name") == "init" for e in s["p"]["proj"])])
         ck.ob("C14.4", "Word::set-initialises", "ALL_BITS" in r or "65535" in r, "Word::set stores the full init mask", "src/sim/mem.rs:%s" % ws.line)
+    ck.include("C15", ctx, "C14.3", None, "initialised operands give initialised results")
     ck.assume("Word operators map fully initialised operands to fully initialised results (C15)")
     ck.assume("the access observer, devices and frame stack are not consulted by strict-only code (follows from the pure-region rule)")
